@@ -100,6 +100,10 @@ MUTATIONS = [
      ("        if self.nth(0).is_ascii_digit() {\n            return self.number(false);\n        }\n\n        Kind::Hyphen", "        if self.nth(0).is_ascii_digit() {\n            return self.number(false);\n        }\n        self.pos += 1;\n        Kind::Hyphen"), r"verus_lexer_hyphen_or_minus"),
     ("lexer_is_special_accepts_high_bytes", "C13", "fea-rs/src/parse/lexer.rs",
      ("        || byte == 123\n        || byte == 125", "        || byte == 123\n        || byte == 125\n        || byte >= 200"), r"verus_lexer_is_special"),
+    ("token_set_mask_aliases_kinds", "C13", "fea-rs/src/parse/lexer/token_set.rs",
+     ("    1u128 << (kind as usize)", "    1u128 << (kind as usize % 64)"), r"c13_token_set_is_a_set_of_kinds"),
+    ("to_token_kind_panics_on_dollar", "C13", "fea-rs/src/parse/lexer/lexeme.rs",
+     ("            Self::StringUnterminated | Self::HexEmpty | Self::Tombstone => {", "            Self::StringUnterminated | Self::HexEmpty | Self::Tombstone | Self::Hyphen => {"), r"c13_to_token_kind_total_for_every_forwarded_kind"),
     ("rank_shift_carry_into_bit_62", "C16", "fontir/src/feature_variations.rs",
      ("            *val |= carry_bit << 63;", "            *val |= carry_bit << 62;"), r"c16_rank_shift_"),
     ("rank_bitor_assign_front_aligned", "C16", "fontir/src/feature_variations.rs",
